@@ -131,12 +131,24 @@ def repeat_consistency(ctx, label, calls, extra=None, mon="REPEAT"):
     return not bad
 
 
-def jac_call(ctx, site, claimed_fn, f, x, extra=None, key_fn=None, mon=None, exc_key_fn=None, floor=1e-6):
+def quat_steps(system, q, hrel=1e-4):
+    """per-coordinate relative difference steps for a system coordinate vector: rigid-body quaternions shorter than one are
+    stepped relative to their own length (the rotation they stand for varies on that scale), everything else as usual"""
+    h = np.full(len(q), float(hrel))
+    for c in system.contributions:
+        if getattr(c, "nq", 0) == 7 and hasattr(c, "B_Theta_C") and hasattr(c, "my_qDOF"):
+            n_ = float(np.linalg.norm(np.asarray(q, dtype=float)[c.my_qDOF[3:]]))
+            if 0 < n_ < 1:
+                h[c.my_qDOF[3:]] = hrel * n_
+    return h
+
+
+def jac_call(ctx, site, claimed_fn, f, x, extra=None, key_fn=None, mon=None, exc_key_fn=None, floor=1e-6, hrel=1e-4):
     """like jac, but the claimed derivative is obtained by calling claimed_fn(); an exception there is a
     violation ('exposed derivative fails') unless it is NotImplementedError"""
     ok, J = guarded(ctx, site, claimed_fn, extra=extra, key_fn=exc_key_fn)
     if mon and not ok:
         ctx.mon(mon)
     if ok:
-        return jac(ctx, site, J, f, x, extra, key_fn, mon, floor)
+        return jac(ctx, site, J, f, x, extra, key_fn, mon, floor, hrel)
     return False
